@@ -48,7 +48,11 @@ def check_integrate(L, s, seed=0, method='trapz'):
     hi_i = int(g.integers(lo_i + 2, len(m.wave))) if lo_i + 2 < len(m.wave) else len(m.wave) - 1
     lo, hi = m.wave[lo_i], m.wave[hi_i]
     i1, i2, i3 = (x.integrate(lo, hi, method=method) for x in (s, s2, s3))
-    scale = abs(a) * abs(i1) + abs(b) * abs(i2) + 1e-300
+    # every tolerance is relative to the integral of |values| (the size of the terms that are summed), not to the result: signed data
+    # can cancel to rounding noise, and two roundings of zero do not agree to nine digits
+    absint = lambda vals, x0, x1: MS(m.wave, [abs(float(v)) for v in vals]).trapz(x0, x1)
+    A1, A2 = absint(v1, lo, hi), absint(v2, lo, hi)
+    scale = abs(a) * max(abs(i1), 1e-3 * A1) + abs(b) * max(abs(i2), 1e-3 * A2) + 1e-300
     out['linear'] = abs(i3 - (a * i1 + b * i2)) <= 1e-9 * scale
     out['linear_detail'] = 'I(a*v1+b*v2)=%r, a*I1+b*I2=%r (%s)' % (i3, a * i1 + b * i2, method)
     # additive over adjacent intervals that meet at a sample point (trapezoid rule)
@@ -57,16 +61,16 @@ def check_integrate(L, s, seed=0, method='trapz'):
     start = lo - float(g.uniform(0, 0.4)) * (m.wave[lo_i] - m.wave[lo_i - 1]) if lo_i > 0 and g.uniform() < 0.5 else lo
     whole = s.integrate(start, hi, method='trapz')
     parts = s.integrate(start, mid, method='trapz') + s.integrate(mid, hi, method='trapz')
-    out['additive'] = abs(whole - parts) <= 1e-9 * (abs(whole) + abs(parts) + 1e-300)
+    out['additive'] = abs(whole - parts) <= 1e-9 * (abs(whole) + abs(parts) + 1e-300) or abs(whole - parts) <= 1e-12 * absint(v1, min(start, lo), hi)
     out['additive_detail'] = 'I[%g,%g]=%r but I[..%g]+I[%g..]=%r' % (start, hi, whole, mid, mid, parts)
     # exact for piecewise-linear data with bounds at samples: the trapezoid sum itself
     ref = m.trapz(lo, hi)
     got = s.integrate(lo, hi, method='trapz')
-    out['exact'] = abs(got - ref) <= 1e-9 * (abs(ref) + 1e-300) or abs(got - ref) <= 1e-12 * max(abs(np.asarray(m.value))) * (hi - lo)
+    out['exact'] = abs(got - ref) <= 1e-9 * (abs(ref) + 1e-300) or abs(got - ref) <= 1e-12 * absint(v1, lo, hi)
     out['exact_detail'] = 'integrate(%g,%g,trapz)=%r, trapezoid sum of the samples=%r' % (lo, hi, got, ref)
     # default bounds = whole range
     full = s.integrate(method='trapz')
-    out['defaults'] = abs(full - m.trapz()) <= 1e-9 * (abs(m.trapz()) + 1e-300) or abs(full - m.trapz()) <= 1e-300
+    out['defaults'] = abs(full - m.trapz()) <= 1e-9 * (abs(m.trapz()) + 1e-300) or abs(full - m.trapz()) <= 1e-12 * absint(v1, None, None)
     out['defaults_detail'] = 'integrate()=%r, trapezoid sum=%r' % (full, m.trapz())
     return out
 
@@ -86,7 +90,7 @@ class EditHooks(Hooks):
         if fn in EDITS or fn in ('Spectrum.sample', 'Spectrum.integrate', 'Spectrum.bin'):
             tgt = ev['a'][0][1:] if isinstance(ev['a'][0], str) else None
             self.others = {k: it.dig(v) for k, v in it.store.items() if k != tgt}
-        if fn.startswith('Spectrum.') and ev.get('a'):
+        if (fn.startswith('Spectrum.') or fn == 'h.crop_ulp') and ev.get('a'):
             tgt = it.resolve(ev['a'][0])
             if not wellformed_obj(tgt)[0]:
                 return      # already reported when it broke; nothing further is judged on a torn object
@@ -149,6 +153,8 @@ class EditHooks(Hooks):
                     it.violate('C15.retain', {'call': fn, 'what': 'bystander-changed', 'kind': type(it.store[k]).__name__},
                                '%s on one spectrum changed %s %s, which was not its target' % (fn, type(it.store[k]).__name__, k), i)
                     break
+        if fn == 'h.pad_nonfinite':
+            it.probe('nonfinite_pad')
         if fn in EDITS and not out.ok:
             it.fault('refuse')
             it.probe('refused:' + fn.split('.')[1])
@@ -184,6 +190,20 @@ class EditHooks(Hooks):
             elif not out.ok and len(post.wave) > 0 and not post.same(pre, rtol=0):
                 it.violate('C15.retain', {'call': fn, 'what': 'refused-edit-changed-object'},
                            'refused crop(%r, %r) left %s (was %s)' % (a[0], a[1], post.wave, pre.wave), i)
+            return
+        if fn == 'h.crop_ulp':
+            if out.ok and out.value is None:
+                return
+            it.probe('crop:ulp')
+            if out.ok:
+                it.probe('check:retain')
+                lo_, hi_ = out.value
+                exp = pre.crop(lo_, hi_)
+                if len(exp.wave) and not post.same(exp, rtol=0):
+                    it.violate('C15.retain', {'call': 'Spectrum.crop', 'what': 'closed-range', 'cut': 'ulp'},
+                               'crop(%r, %r) of %s kept %s, closed range holds %s' % (lo_, hi_, pre.wave, post.wave, exp.wave), i)
+            elif not post.same(pre, rtol=0):
+                it.violate('C15.retain', {'call': 'Spectrum.crop', 'what': 'refused-edit-changed-object'}, 'refused crop changed the spectrum', i)
             return
         if fn in EDITS and not out.ok:
             # an edit whose arguments are valid for the live pre-state must be carried out
@@ -267,7 +287,12 @@ class EditHooks(Hooks):
                     it.violate('C15.retain', {'call': fn, 'what': 'values'},
                                'resample values %s, linear interpolation of the old samples gives %s' % (post.value, exp.tolist()), i)
             else:
-                # any interpolant reproduces the samples it retains
+                # any interpolant reproduces the samples it retains -- to the accuracy the spline system allows: two samples a few
+                # ulp apart (a pad end that a unit conversion left one rounding outside the old range) make it singular in practice
+                dsrc = np.diff(np.asarray(src.wave, dtype=float))
+                if dsrc.size and dsrc.min() < 1e-6 * dsrc.max():
+                    it.probe('spline_on_near_duplicate_samples')
+                    return
                 for w, v in zip(post.wave, post.value):
                     for w0, v0 in zip(src.wave, src.value):
                         if w == w0 and abs(v - v0) > 1e-9 * max(abs(np.asarray(src.value))):
@@ -293,7 +318,9 @@ class EditHooks(Hooks):
             it.probe('check:integrate')
             if k.get('method', 'simps') == 'trapz':
                 ref = pre.trapz(k.get('start'), k.get('end'))
-                if abs(out.value - ref) > 1e-9 * (abs(ref) + 1e-300) and abs(out.value - ref) > 1e-300:
+                # (relative to the result, or -- for signed data that cancels -- to the integral of |values|)
+                absref = MS(pre.wave, [abs(v) for v in pre.value]).trapz(k.get('start'), k.get('end'))
+                if abs(out.value - ref) > 1e-9 * (abs(ref) + 1e-300) and abs(out.value - ref) > 1e-12 * absref:
                     it.violate('C15.integrate', {'what': 'trapezoid'}, 'integrate(%s)=%r, trapezoid sum %r' % (k, out.value, ref), i)
         elif fn == 'Spectrum.bin':
             self._check_bin(it, i, pre, a, k, tag, out.value)
@@ -418,7 +445,7 @@ class SpectrumEditScenario(Scenario):
                    'bin-centre sets for the power-preservation clause start and end on sample points; Simpson bins are judged for sign only on '
                    'uniform centres over uniformly sampled data with linear sampling, as the statement says',
                    'scipy.integrate.simpson is trusted as the reference for Simpson totals']
-    must_hit = ['refused:resample', 'refused:append', 'crop:at-sample', 'crop:between', 'pad:inside', 'pad:outside',
+    must_hit = ['crop:ulp', 'nonfinite_pad', 'refused:resample', 'refused:append', 'crop:at-sample', 'crop:between', 'pad:inside', 'pad:outside',
                 'bin:trapz/symmetric/pp', 'bin:trapz/inside/raw', 'bin:simps/symmetric/raw', 'bin:simps/inside/pp',
                 'bin_linear_exact', 'bin_power', 'nonuniform_grid', 'idem', 'query_repeated_after_edit', 'shared_buffers',
                 'query_repeated_after_caller_write', 'foreign_unit_query_repeated_after_edit', 'bin_one_option_flipped', 'crop:disjoint', 'query_repeated_after_value_assignment']
@@ -780,6 +807,22 @@ class SpectrumEditScenario(Scenario):
                 q['t'].pop('linear', None)
                 q['t']['nonneg'] = True
                 events.append(q)
+            if rng.random() < 0.05 and len(m.wave) >= 5:
+                # limits a few ulp away from two current samples: the closed range is exact
+                i0 = rng.randint(0, len(m.wave) - 4)
+                j0 = rng.randint(i0 + 2, len(m.wave) - 1)
+                klo, khi = rng.choice([(0, -1), (1, 0), (1, -1), (-1, 1), (0, -2), (2, 0)])
+                events.append({'c': 0, 'fn': 'h.crop_ulp', 'a': ['@' + sid, i0, j0, klo, khi], 'id': 'c0_cu%d' % len(events), 'inplace': ['@' + sid]})
+                a_, b_ = i0 + (1 if klo > 0 else 0), j0 - (1 if khi < 0 else 0)
+                m.wave, m.value = m.wave[a_:b_ + 1], m.value[a_:b_ + 1]
+                m.lin = None
+                continue
+            if rng.random() < 0.04:
+                # "no data" sentinels: a pad with non-finite values, taken off again by the next step.  Accepted or refused, every
+                # intermediate state is a grid with one value per wavelength
+                events.append({'c': 0, 'fn': 'h.pad_nonfinite', 'a': ['@' + sid, rng.choice(['inf', 'nan', '-inf'])], 'id': 'c0_pn%d' % len(events),
+                               'inplace': ['@' + sid]})
+                events.append({'c': 0, 'fn': 'h.crop_finite', 'a': ['@' + sid], 'id': 'c0_cf%d' % len(events), 'inplace': ['@' + sid]})
             if rng.random() < 0.08:
                 # the owner edits samples in place through the array the spectrum hands out (s.value[...] *= k): the next edit or query
                 # sees the new content (expected results are computed from the object's live public pre-state)
